@@ -151,6 +151,28 @@ func (m *Model) RunPathAPI(s *Sink, rule string) {
 			s.Undecided(rule, fnKey(ftf)+"|registration", m.Pos(ftf.Pos()), "no map registration inside the directory walk callback")
 		}
 	}
+	// the file of a template name: <dir>/<name><ext>, the extension appended unconditionally
+	if tfp := m.PkgFunc("textwire", "templateFullPath"); tfp != nil {
+		ok := false
+		for _, b := range tfp.Blocks {
+			for _, in := range b.Instrs {
+				c, isC := in.(*ssa.Call)
+				if !isC || c.Call.StaticCallee() == nil || fnFullName(c.Call.StaticCallee()) != "path/filepath.Abs" {
+					continue
+				}
+				if bo, isBo := c.Call.Args[0].(*ssa.BinOp); isBo && bo.Op == token.ADD && strings.HasSuffix(fieldPathOf(bo.Y), ".TemplateExt") {
+					if jc, isJ := bo.X.(*ssa.Call); isJ && len(jc.Call.Args) == 2 && strings.HasSuffix(fieldPathOf(jc.Call.Args[0]), ".TemplateDir") && jc.Call.Args[1] == ssa.Value(tfp.Params[0]) {
+						ok = true
+					}
+				}
+			}
+		}
+		if ok {
+			s.OK(rule, fnKey(tfp)+"|file of a name is dir/name+ext", m.Pos(tfp.Pos()), "filepath.Abs(join(TemplateDir, name) + TemplateExt) on every path")
+		} else {
+			s.Violation(rule, fnKey(tfp)+"|file of a name is dir/name+ext", m.Pos(tfp.Pos()), "the file of a template, layout or component name is not always <TemplateDir>/<name><TemplateExt> (e.g. the extension is appended conditionally): names containing a dot resolve to a file that does not exist")
+		}
+	}
 	// NewTemplate: error <=> nil template
 	nt := m.PkgFunc("textwire", "NewTemplate")
 	if nt != nil {
